@@ -8,6 +8,7 @@ A missing anchor is a broken tie: the list then lacks that fact and the lock lem
   BF_ExpandMinMax        BBox::expand_impl: left/top by min, right/bottom by max
   BF_DefaultSentinels    BBox::default: f32::MAX / f32::MIN sentinels, is_default compares with them
   BF_ObjBoxes            calculate_bounding_boxes: bbox / stroke_bbox expand by the child box, transformed by group.transform
+  BF_SkipEmptyGroups     both loops (calculate_object_bbox, calculate_bounding_boxes) `continue` on a child group without children and filters
   BF_AbsBoxes            abs_bbox / abs_stroke_bbox expand by the child's abs boxes
   BF_LayerNonGroup       non-group children contribute stroke_bounding_box to the layer box
   BF_LayerGroup          group children contribute layer_bounding_box.transform(group.transform) when Some
@@ -19,7 +20,8 @@ A missing anchor is a broken tie: the list then lacks that fact and the lock lem
   BF_UseChildrenAbs      use_node::convert_children: parent.abs_transform temporarily pre_concat(transform), g.transform = transform
   BF_BackgroundAbs       convert_doc / background_path: the background rectangle is built by Path::new with root_ts as abs_transform
   BF_NewSimpleClipOnly   Path::new_simple (identity abs_transform) is called only for the clip rectangles of image.rs, marker.rs, use_node.rs
-  BF_NodeLayerBox        Node::abs_layer_bounding_box: group -> Some(abs_layer), others abs_bounding_box().to_non_zero_rect()
+  BF_NodeLayerBox        Node::abs_layer_bounding_box: group -> Some(abs_layer); path, text -> abs_stroke_bounding_box().to_non_zero_rect()
+                         (ece95dc); image -> abs_bounding_box().to_non_zero_rect()
   BF_RenderNodeNone      render_node: `let bbox = node.abs_layer_bounding_box()?;`
   BF_RenderNodeTs        render_node: pre_translate(-bbox.x(), -bbox.y()) then pre_concat(parent abs transform)
   BF_RenderNodeParentTs  parent transform: group -> abs * ts^-1, other nodes -> abs_transform
@@ -52,6 +54,10 @@ FACTS = [
                           r"abs_bbox = abs_bbox\.expand\(child\.abs_bounding_box\(\)\); \{ let mut c_bbox = child\.stroke_bounding_box\(\); "
                           r"if let Node::Group\(ref group\) = child \{ if let Some\(r\) = c_bbox\.transform\(group\.transform\) \{ c_bbox = r; \} \} "
                           r"stroke_bbox = stroke_bbox\.expand\(c_bbox\); \}"),
+    ('BF_SkipEmptyGroups', TREE, r"pub\(crate\) fn calculate_object_bbox\(&mut self\) -> Option<NonZeroRect> \{ let mut bbox = BBox::default\(\); "
+                                 r"for child in &self\.children \{ if let Node::Group\(ref group\) = child \{ if !group\.has_children\(\) && group\.filters\.is_empty\(\) "
+                                 r"\{ continue; \} \} let mut c_bbox.*let mut layer_bbox = BBox::default\(\); for child in &self\.children \{ "
+                                 r"if let Node::Group\(ref group\) = child \{ if !group\.has_children\(\) && group\.filters\.is_empty\(\) \{ continue; \} \} \{ let mut c_bbox"),
     ('BF_AbsBoxes', TREE, r"abs_bbox = abs_bbox\.expand\(child\.abs_bounding_box\(\)\);.*"
                           r"abs_stroke_bbox = abs_stroke_bbox\.expand\(child\.abs_stroke_bounding_box\(\)\);"),
     ('BF_LayerGroup', TREE, r"if let Node::Group\(ref group\) = child \{ let r = group\.layer_bounding_box; "
@@ -75,9 +81,9 @@ FACTS = [
                                r"Arc::new\(path\), abs_transform, \) \}"),
     ('BF_NodeLayerBox', TREE, r"pub fn abs_layer_bounding_box\(&self\) -> Option<NonZeroRect> \{ match self \{ "
                               r"Node::Group\(ref group\) => Some\(group\.abs_layer_bounding_box\(\)\), "
-                              r"Node::Path\(ref path\) => path\.abs_bounding_box\(\)\.to_non_zero_rect\(\), "
+                              r"Node::Path\(ref path\) => path\.abs_stroke_bounding_box\(\)\.to_non_zero_rect\(\), "
                               r"Node::Image\(ref image\) => image\.abs_bounding_box\(\)\.to_non_zero_rect\(\), "
-                              r"Node::Text\(ref text\) => text\.abs_bounding_box\(\)\.to_non_zero_rect\(\), \} \}"),
+                              r"Node::Text\(ref text\) => text\.abs_stroke_bounding_box\(\)\.to_non_zero_rect\(\), \} \}"),
     ('BF_RenderNodeNone', LIB, r"pub fn render_node\( node: &usvg::Node, mut transform: tiny_skia::Transform, pixmap: &mut tiny_skia::PixmapMut, \) "
                                r"-> Option<\(\)> \{ let bbox = node\.abs_layer_bounding_box\(\)\?;"),
     ('BF_RenderNodeTs', LIB, r"transform = transform\.pre_translate\(-bbox\.x\(\), -bbox\.y\(\)\);.*transform = transform\.pre_concat\(parent_ts\); "
